@@ -272,8 +272,13 @@ class Walker:
             if _mentions(st, par):
                 items.append('Use')
             return
-        if isinstance(st, ast.Assign) and isinstance(st.value, ast.Call) and isinstance(st.value.func, ast.Name) \
-                and st.value.func.id in VALIDATORS and st.value.args and _is_name(st.value.args[0], par):
+        val = st.value if isinstance(st, ast.Assign) else None
+        # a copy of the validator's result (np.array(<validator call>)) is still the validated value
+        if isinstance(val, ast.Call) and ast.unparse(val.func) in ('np.array', 'np.asarray') \
+                and len(val.args) == 1 and not val.keywords:
+            val = val.args[0]
+        if isinstance(st, ast.Assign) and isinstance(val, ast.Call) and isinstance(val.func, ast.Name) \
+                and val.func.id in VALIDATORS and val.args and _is_name(val.args[0], par):
             for tg in st.targets:
                 if isinstance(tg, (ast.Name, ast.Attribute)):
                     env.setdefault('__alias__', set()).add(ast.unparse(tg))
@@ -489,6 +494,10 @@ def gen_routing(repo=None):
     out.append('')
     out.append('Definition hw_sites : list (bool * string * string * string * bool * bool) := [')
     out.append(';\n'.join(hw_site_entries(repo)))
+    out.append('].')
+    out.append('')
+    out.append('Definition cfg_writes : list (bool * string * string * string * string) := [')
+    out.append(';\n'.join(cfg_write_entries(repo)))
     out.append('].')
     out.append('')
     out.append('Definition finite_routing : list centry := [')
@@ -718,6 +727,49 @@ def hw_site_entries(repo):
                             raise TranslateError(f'_check_half_window flag given by a variable (line {node.lineno})')
                         arg = ast.unparse(node.args[0]).replace('"', "'")
                         entries.append(f'  ({_b(two_d)}, "{mod}", "{fn.name}", "{arg}", {_b(az)}, {_b(td)})')
+    return entries
+
+
+# ------------------------------------------------------------------------------------------------
+# writes of fitter CONFIGURATION attributes (on any receiver): only constructors / documented setters /
+# the helpers that configure a freshly built object may contain them
+CFG_ATTRS = ('_check_finite', '_dtype', '_sort_order', '_inverted_order', 'banded_solver', '_banded_solver',
+             'pentapy_solver', '_pentapy_solver')
+
+
+def cfg_write_entries(repo):
+    entries = []
+    for two_d in (False, True):
+        rels = [(f'pybaselines/{"two_d/" if two_d else ""}_algorithm_setup.py', '_algorithm_setup')]
+        rels += [(f'pybaselines/{"two_d/" if two_d else ""}{m}.py', m) for m in (MODS_2D if two_d else MODS_1D)]
+        for rel, mod in rels:
+            tree, _ = _parse(rel, repo)
+
+            def record(fn_name, node_attr, recv, line):
+                entries.append(f'  ({_b(two_d)}, "{mod}", "{fn_name}", "{node_attr}", "{recv}")')
+
+            def scan(fn_name, root):
+                for node in ast.walk(root):
+                    if isinstance(node, ast.Attribute) and isinstance(node.ctx, (ast.Store, ast.Del)) \
+                            and node.attr in CFG_ATTRS:
+                        record(fn_name, node.attr, ast.unparse(node.value).replace('"', "'"), node.lineno)
+                    if isinstance(node, ast.Call) and isinstance(node.func, ast.Name) \
+                            and node.func.id in ('setattr', 'delattr') and len(node.args) >= 2:
+                        a = node.args[1]
+                        if not isinstance(a, ast.Constant):
+                            record(fn_name, '<dynamic>', ast.unparse(node.args[0]).replace('"', "'"), node.lineno)
+                        elif a.value in CFG_ATTRS:
+                            record(fn_name, a.value, ast.unparse(node.args[0]).replace('"', "'"), node.lineno)
+                    if isinstance(node, ast.Attribute) and node.attr == '__dict__':
+                        record(fn_name, '<__dict__>', ast.unparse(node.value).replace('"', "'"), node.lineno)
+
+            for top in tree.body:
+                if isinstance(top, ast.ClassDef):
+                    for fn in top.body:
+                        if isinstance(fn, ast.FunctionDef):
+                            scan(fn.name, fn)
+                elif isinstance(top, ast.FunctionDef):
+                    scan(top.name, top)
     return entries
 
 
